@@ -217,7 +217,88 @@ fn enumerated() -> Vec<Scenario> {
     out
 }
 
+/// Lane of the small-limit build: one connection of a generated scenario sends, at a generated
+/// position of its script, a well-formed call that is longer than the size limit of the receive
+/// buffer (0..2000 bytes over; delivered whole, in 255- / 256- / 4096-byte pieces or cut as the
+/// scenario says), possibly followed by more calls, by a close or by nothing.
+fn oversized_strategy() -> impl Strategy<Value = Scenario> {
+    (
+        scenario_strategy(Features { faults: false, ..FEATURES }),
+        any::<u8>(),
+        any::<u8>(),
+        prop_oneof![3 => 0u16..4, 2 => 250u16..262, 2 => 0u16..2000],
+        0u8..5,
+        0u8..4,
+    )
+        .prop_map(|(mut sc, who, pos, over, plan, end)| {
+            let c = who as usize % sc.conns.len();
+            let script = &mut sc.conns[c];
+            let at = pos as usize % (script.frames.len() + 1);
+            script.frames.insert(at, FrameSpec::Fault(FaultKind::Oversized { over }));
+            script.end = match end {
+                0 => ConnEnd::Eof,
+                1 => ConnEnd::ReadErr,
+                _ => ConnEnd::Open,
+            };
+            script.truncate_last = end == 0 && at == script.frames.len() - 1 && over % 2 == 0;
+            let plan = match plan {
+                0 => ChunkPlan::One,
+                1 => ChunkPlan::Fixed(255),
+                2 => ChunkPlan::Fixed(256),
+                3 => ChunkPlan::Fixed(4096),
+                _ => ChunkPlan::AtNuls(1),
+            };
+            script.cuts = resolve_cuts(&plan, &script.stream(c));
+            // every piece of the long script has to be delivered some time: append the deliveries
+            for _ in 0..script.cuts.len() + 1 {
+                sc.steps.push(Step::Chunk(c));
+                if over % 3 == 0 {
+                    sc.steps.push(Step::Poll);
+                }
+            }
+            with_late_conn(sc)
+        })
+}
+
+#[derive(serde::Serialize, serde::Deserialize)]
+struct ChildOut {
+    limit: usize,
+    stats: Stats,
+    violations: Vec<vcommon::ev::Violation>,
+}
+
+const PROD_LIMIT: usize = 100 * 1024 * 1024;
+
 pub fn run(ctx: &Ctx) -> i32 {
+    if let Ok(path) = std::env::var("VERIF_C09_CHILD") {
+        // Child: the small-limit build runs the oversized-message lane only.
+        let (shards, cases) = ctx.tier.pick((16, 300), (32, 4000));
+        let (stats, violations) = run_shards(ctx, "oversized(small-limit build)", shards, cases, oversized_strategy, |sc, stats| {
+            stats.class("fault:oversized-message");
+            check_scenario(sc, stats)
+        });
+        let out = ChildOut { limit: zlink_core::__verif::MAX_BUFFER_SIZE, stats, violations };
+        std::fs::write(&path, serde_json::to_vec(&out).unwrap()).expect("write child result");
+        return 0;
+    }
+    let child = match std::env::var("VERIF_VCHECK_SMALLBUF") {
+        Ok(bin) if zlink_core::__verif::MAX_BUFFER_SIZE == PROD_LIMIT => {
+            let dir = vcommon::ev::verif_root().join("work").join("C09");
+            let _ = std::fs::create_dir_all(&dir);
+            let out = dir.join(format!("small-{}.json", std::process::id()));
+            match std::process::Command::new(&bin).arg("C09").arg(ctx.tier.name()).arg("--seed").arg(ctx.seed.to_string()).env("VERIF_C09_CHILD", &out).spawn() {
+                Ok(c) => Some((c, out)),
+                Err(e) => {
+                    eprintln!("C09: cannot start {bin}: {e}");
+                    return 2;
+                }
+            }
+        }
+        _ => {
+            eprintln!("C09: VERIF_VCHECK_SMALLBUF is not set (run through ./check)");
+            return 2;
+        }
+    };
     let (shards, cases) = ctx.tier.pick((16, 8000), (64, 20_000));
     let (mut stats, mut viol) = run_shards(
         ctx,
@@ -253,6 +334,29 @@ pub fn run(ctx: &Ctx) -> i32 {
     });
     stats.merge(s2);
     viol.extend(v2);
+    let mut small_limit = 0usize;
+    if let Some((mut c, out)) = child {
+        let status = c.wait();
+        if !matches!(status, Ok(s) if s.success()) {
+            eprintln!("C09: the small-limit run did not finish ({status:?}); inconclusive");
+            return 2;
+        }
+        let small: ChildOut = match std::fs::read(&out).ok().and_then(|b| serde_json::from_slice(&b).ok()) {
+            Some(c) => c,
+            None => {
+                eprintln!("C09: cannot read the small-limit result; inconclusive");
+                return 2;
+            }
+        };
+        let _ = std::fs::remove_file(&out);
+        if small.limit >= PROD_LIMIT {
+            eprintln!("C09: the small-limit build reports limit {}; hook not active", small.limit);
+            return 2;
+        }
+        small_limit = small.limit;
+        stats.merge(small.stats);
+        viol.extend(small.violations);
+    }
     crate::fuzzrun::golden("srv_sim", &mut stats, &mut viol);
     if ctx.tier == vcommon::ev::Tier::Thorough {
         std::env::set_var("VERIF_SRV_LANES", "1,2");
@@ -261,7 +365,8 @@ pub fn run(ctx: &Ctx) -> i32 {
     }
     Report::new(RULE)
         .assume("faults are injected by the scripted transports: EOF = 0-byte read, read / write errors = Error::SocketRead / SocketWrite from the k-th operation on")
-        .assume("an oversized unterminated message is not part of this check (its refusal is covered by C17; here it would cost 100 MiB per case)")
+        .assume("oversized messages are injected in a second build whose size limit is lowered by the cfg(zlink_verif_small_buf) hook (the production limit of 100 MiB would cost 100 MiB per case); that build differs from production only in the value of the limit constant")
+        .extra("small_limit_of_the_oversized_lane", json!(small_limit))
         .extra("enumerated_fault_placements", json!(en.len()))
         .finish(ctx, &stats, &viol, &[])
 }
@@ -270,7 +375,32 @@ pub fn replay(_lane: &str, case: serde_json::Value) -> CaseResult {
     if _lane == "fuzz" {
         return crate::fuzzrun::replay(&case);
     }
-    let sc: Scenario = serde_json::from_value(case).map_err(|e| Fail::new("bad-replay", e.to_string()))?;
+    let sc: Scenario = serde_json::from_value(case.clone()).map_err(|e| Fail::new("bad-replay", e.to_string()))?;
+    let oversized = sc.conns.iter().any(|c| c.frames.iter().any(|f| matches!(f, FrameSpec::Fault(FaultKind::Oversized { .. }))));
+    if oversized && zlink_core::__verif::MAX_BUFFER_SIZE == PROD_LIMIT {
+        // a case of the small-limit build: hand over to that binary
+        let Ok(bin) = std::env::var("VERIF_VCHECK_SMALLBUF") else {
+            return Err(Fail::new("infra", "replaying an oversized-message case needs VERIF_VCHECK_SMALLBUF (run through ./check --replay)"));
+        };
+        let tmp = vcommon::ev::verif_root().join("work").join("C09");
+        let _ = std::fs::create_dir_all(&tmp);
+        let path = tmp.join(format!("replay-{}.json", std::process::id()));
+        std::fs::write(&path, serde_json::to_vec(&json!({"property": "C09", "lane": _lane, "case": case})).unwrap()).unwrap();
+        let out = std::process::Command::new(bin).arg("--replay").arg(&path).output();
+        let _ = std::fs::remove_file(&path);
+        return match out {
+            Ok(o) => {
+                let text = String::from_utf8_lossy(&o.stdout).to_string();
+                print!("{text}");
+                if o.status.success() {
+                    Ok(())
+                } else {
+                    Err(Fail::new("replayed-in-small-build", text.lines().last().unwrap_or("violation").to_string()))
+                }
+            }
+            Err(e) => Err(Fail::new("infra", e.to_string())),
+        };
+    }
     println!("{}", serde_json::to_string_pretty(&sample_of(&sc)).unwrap());
     let trace = run_scenario(&sc);
     for o in &trace.observations {
